@@ -130,8 +130,24 @@ def _include_case(item):
     return {'roots': [case['root']], 'opens': opens, 'mustError': not case['inside'], 'outcome': outcome}, err
 
 
+def require_stmt(a, form):
+    """the ways a cart can write the call: all denote require(<string a>)"""
+    a = a.encode()
+    esc = b''.join(b'\\x%02x' % c if c in b'./' else bytes([c]) for c in a)
+    return (b'local m = require("' + a + b'")\nprint(m)\n',
+            b'local m = require "' + a + b'"\nprint(m)\n',
+            b"local m = require'" + a + b"'\n",
+            b'local m = require[[' + a + b']]\n',
+            b'local m = require [==[' + a + b']==] print(m)\n',
+            b'local m = require("' + a + b'", {use_game_loop=true})\n',
+            b'function f(x)\n if x then\n  return {k = require("' + a + b'")}\n end\nend\n',
+            b'local m = require("' + esc + b'")\n',
+            b'print(1, require ( "' + a + b'" ).x)\n',
+            b'local m = require("' + a + b'")\nprint(m)\n')[form % 10]
+
+
 def _require_case(item):
-    arg, case, targets, tmp = item
+    arg, case, targets, tmp, form = item
     from pico8 import tool
     ensure_hook()
     outside_only = isinstance(targets, tuple)
@@ -155,7 +171,7 @@ def _require_case(item):
     main = os.path.join(S, *case['maindir'], 'main.lua')
     a = render_arg(arg, S, semi_abs=True)
     with open(main, 'wb') as f:
-        f.write(b'local m = require("' + a.encode() + b'")\nprint(m)\n')
+        f.write(require_stmt(a, form))
     out = os.path.join(S, 'out', 'out.p8')
     if os.path.exists(out):
         os.unlink(out)
@@ -225,9 +241,9 @@ def run_mode(ctx, mode, maxlen):
             # loader that falls through to an escaping candidate is caught opening it
             outside = ([c['target'] for x in recs for c in x['cases'][ci]['cands'] if not c['inside']],)
             for x in recs:
-                items.append((x['arg'], x['cases'][ci], targets, ctx.tmp))
+                items.append((x['arg'], x['cases'][ci], targets, ctx.tmp, len(items)))
                 if any(not c['inside'] for c in x['cases'][ci]['cands']):
-                    items.append((x['arg'], x['cases'][ci], outside, ctx.tmp))
+                    items.append((x['arg'], x['cases'][ci], outside, ctx.tmp, len(items) + 3))
         fn = _require_case
     # group by sandbox key so that each worker builds few sandboxes
     res = core.parmap(fn, items, procs=12, chunksize=max(1, len(items) // 48))
